@@ -469,29 +469,42 @@ struct ChunkFooter {
 pub struct SecureChunk {
     ptr: NonNull<u8>,
     size: usize,
+    alignment: usize,
     generation: u32,
     pool_id: u32,
     canary: u32,
 }
 
 impl SecureChunk {
+    /// Allocation layout of a chunk and the offset of its data area inside the allocation.
+    ///
+    /// The header sits directly in front of the data area; the allocation starts with padding
+    /// so that the data area (not the header) gets the requested alignment.
+    fn layout(size: usize, alignment: usize) -> Option<(Layout, usize)> {
+        let align = alignment.max(std::mem::align_of::<ChunkHeader>());
+        let data_offset = std::mem::size_of::<ChunkHeader>().checked_next_multiple_of(align)?;
+        let total_size = data_offset
+            .checked_add(size)?
+            .checked_add(std::mem::size_of::<ChunkFooter>())?;
+        let layout = Layout::from_size_align(total_size, align).ok()?;
+        Some((layout, data_offset))
+    }
+
     /// Create a new secure chunk with validation metadata
-    fn new(size: usize, generation: u32, pool_id: u32) -> Result<Self> {
+    fn new(size: usize, alignment: usize, generation: u32, pool_id: u32) -> Result<Self> {
         let canary = fastrand::u32(..);
         let header_size = std::mem::size_of::<ChunkHeader>();
-        let footer_size = std::mem::size_of::<ChunkFooter>();
-        let total_size = header_size + size + footer_size;
 
-        let layout = Layout::from_size_align(total_size, 8)
-            .map_err(|_| ZiporaError::invalid_data("Invalid layout for chunk allocation"))?;
+        let (layout, data_offset) = Self::layout(size, alignment)
+            .ok_or_else(|| ZiporaError::invalid_data("Invalid layout for chunk allocation"))?;
 
         let raw_ptr = unsafe { alloc(layout) };
         if raw_ptr.is_null() {
             return Err(ZiporaError::out_of_memory(size));
         }
 
-        // Initialize header
-        let header = raw_ptr as *mut ChunkHeader;
+        // Initialize header (immediately before the data area)
+        let header = unsafe { raw_ptr.add(data_offset - header_size) as *mut ChunkHeader };
         unsafe {
             (*header) = ChunkHeader {
                 magic: CHUNK_HEADER_MAGIC,
@@ -505,7 +518,7 @@ impl SecureChunk {
         }
 
         // Initialize footer
-        let footer_ptr = unsafe { raw_ptr.add(header_size + size) as *mut ChunkFooter };
+        let footer_ptr = unsafe { raw_ptr.add(data_offset + size) as *mut ChunkFooter };
         unsafe {
             (*footer_ptr) = ChunkFooter {
                 canary,
@@ -515,11 +528,12 @@ impl SecureChunk {
         }
 
         // Return pointer to data area (after header)
-        let data_ptr = unsafe { raw_ptr.add(header_size) };
+        let data_ptr = unsafe { raw_ptr.add(data_offset) };
 
         Ok(Self {
             ptr: unsafe { NonNull::new_unchecked(data_ptr) },
             size,
+            alignment,
             generation,
             pool_id,
             canary,
@@ -629,16 +643,10 @@ impl SecureChunk {
             }
         }
 
-        let header_size = std::mem::size_of::<ChunkHeader>();
-        let footer_size = std::mem::size_of::<ChunkFooter>();
-        let total_size = header_size + self.size + footer_size;
-
-        let raw_ptr = unsafe { self.ptr.as_ptr().sub(header_size) };
-        // SAFETY: Layout::from_size_align() cannot fail because:
-        // 1. total_size was successfully used to allocate this chunk
-        // 2. Alignment of 8 is always valid (power of 2)
-        // 3. self.size was validated during allocation
-        let layout = Layout::from_size_align(total_size, 8).unwrap();
+        // SAFETY: Self::layout() cannot fail because the same size and alignment
+        // were successfully used to allocate this chunk
+        let (layout, data_offset) = Self::layout(self.size, self.alignment).unwrap();
+        let raw_ptr = unsafe { self.ptr.as_ptr().sub(data_offset) };
 
         unsafe {
             dealloc(raw_ptr, layout);
@@ -653,7 +661,7 @@ impl SecureChunk {
 // SAFETY: SecureChunk is Send because:
 // 1. `ptr: NonNull<u8>` - Raw pointer to heap-allocated memory. The chunk owns
 //    this memory exclusively until deallocated. No thread-local state.
-// 2. `size: usize` - Immutable primitive, trivially Send.
+// 2. `size: usize`, `alignment: usize` - Immutable primitives, trivially Send.
 // 3. `canary: u32` - Immutable after construction, trivially Send.
 // 4. `generation: u32` - Immutable after construction, trivially Send.
 unsafe impl Send for SecureChunk {}
@@ -1093,7 +1101,12 @@ impl SecureMemoryPool {
         }
 
         // Fall back to regular allocation
-        let mut chunk = SecureChunk::new(self.config.chunk_size, generation, self.pool_id)?;
+        let mut chunk = SecureChunk::new(
+            self.config.chunk_size,
+            self.config.alignment,
+            generation,
+            self.pool_id,
+        )?;
 
         // SIMD-optimized memory zeroing on allocation if configured
         if self.config.zero_on_alloc {
@@ -1281,6 +1294,7 @@ impl SecureMemoryPool {
             let chunk = SecureChunk {
                 ptr: unsafe { NonNull::new_unchecked(data_ptr) },
                 size: self.config.chunk_size,
+                alignment: self.config.alignment,
                 generation,
                 pool_id: self.pool_id,
                 canary: header.canary,
